@@ -14,9 +14,9 @@ import lib_progress as lp
 
 PROPERTY = "C12"
 
-# CODE VARIANT FLAGS (value = today's code; see Model/Progress.lean `Cfg.clockOutside`)
-# 1: Progress.advance / Progress.reset call get_time() before `with self._lock`   (rich 9.10.0)
-# 0: the read is the first statement under the lock (pending_fixes/C12-clock-read-under-lock.diff)
+# CODE VARIANT FLAGS (value = the code in /repo as it is now; see Model/Progress.lean `Cfg.clockOutside`)
+# 1: Progress.advance / Progress.reset call get_time() before `with self._lock`   (rich 9.10.0 as found)
+# 0: the read is the first statement under the lock (fix b790bf0 = pending_fixes/C12-clock-read-under-lock.diff; in /repo now)
 CLOCK_OUTSIDE = 0
 
 MAXLEN = 1000  # the literal in `while len(_progress) > 1000`
@@ -723,8 +723,8 @@ MANIFEST = {
     "non-negative on a monotone clock; started & unfinished & has samples => completed < total), "
     "accounting_linearizable (for every schedule the counters equal the sequential history in lock-acquisition order, "
     "on any clock, either code variant) with completed_exact_all_schedules, fixed_schedules_are_sequential + "
-    "speed_nonneg_all_schedules for the repaired variant, the machine-checked witness old_speed_negative_under_schedule "
-    "(F21: 2 threads, 4 events, speed -1, remaining -98 s) and remaining_negative_if_advanced_unstarted (why the "
+    "speed_nonneg_all_schedules for the repaired variant (what /repo contains now, fix b790bf0), the machine-checked witness "
+    "old_speed_negative_under_schedule for rich 9.10.0 as found (F21: 2 threads, 4 events, speed -1, remaining -98 s) and remaining_negative_if_advanced_unstarted (why the "
     "hypothesis 'running whenever it advances' is needed), track_counts / track_thread_counts (any batching by the "
     "helper thread). Tie: the model is run against real rich on an injected clock - every history of <=3 (thorough 4) "
     "ops over a 21-symbol alphabet, seeded adaptive random histories, >1000-sample histories, compared after every "
